@@ -1,6 +1,7 @@
 """Per-check session: fresh MIR dump, native driver, obligation bookkeeping, evidence, verdict lines."""
 import fcntl
 import glob
+import gzip
 import hashlib
 import json
 import os
@@ -175,6 +176,63 @@ class Obligation:
 
     def as_dict(self):
         return dict(self.__dict__)
+
+
+# The evidence file is a record a reader opens, not a dump: it stays well under 1 MB. Every obligation of the run is counted in
+# `obligation_families` (by name prefix and status); `samples` holds the ones that are not plainly "held" first (inconclusive, violated,
+# known finding) and then an evenly strided selection of the rest, within SAMPLES_BUDGET bytes. The complete listing goes to
+# .cache/evidence-full/<id>.<tier>.jsonl.gz (not committed).
+EVIDENCE_MAX_BYTES = 1500000
+SAMPLES_BUDGET = 600000
+SAMPLES_MAX = 1500
+
+
+def _family(name):
+    for i, ch in enumerate(name):
+        if ch in '[(':
+            return name[:i]
+    return name
+
+
+def _bounded_samples(full):
+    families = {}
+    for r in full:
+        f = families.setdefault(_family(r['obligation']), dict(obligations=0, held=0, other=0, paths=0, queries=0, solver_s=0.0))
+        f['obligations'] += 1
+        f['held' if str(r['status']).startswith('held') else 'other'] += 1
+        f['paths'] += r['paths'] or 0
+        f['queries'] += r['queries'] or 0
+        f['solver_s'] = round(f['solver_s'] + (r['solver_s'] or 0), 3)
+    sizes = [len(json.dumps(r, indent=1, default=str)) + 4 for r in full]
+    first = [i for i, r in enumerate(full) if not str(r['status']).startswith('held')]
+    rest = [i for i, r in enumerate(full) if str(r['status']).startswith('held')]
+    chosen, used = [], 0
+    for i in first[:300]:
+        if used + sizes[i] > SAMPLES_BUDGET // 2:
+            break
+        chosen.append(i)
+        used += sizes[i]
+    room = SAMPLES_MAX - len(chosen)
+    if rest and room > 0:
+        avg = max(1, sum(sizes[i] for i in rest) // len(rest))
+        n = max(1, min(len(rest), room, (SAMPLES_BUDGET - used) // avg))
+        step = len(rest) / float(n)
+        seen = set()
+        for k in range(n):
+            i = rest[int(k * step)]
+            if i in seen or used + sizes[i] > SAMPLES_BUDGET:
+                continue
+            seen.add(i)
+            chosen.append(i)
+            used += sizes[i]
+    chosen.sort()
+    if not chosen and full:
+        chosen = [0]
+    listing = dict(obligations_in_run=len(full), written_here=len(chosen),
+                   selection='every obligation that is not plainly held (up to 300), then an evenly strided selection of the held ones in run order',
+                   complete_listing='.cache/evidence-full/<id>.<tier>.jsonl.gz (rewritten by every run, not committed)')
+    return [full[i] for i in chosen], families, listing
+
 
 
 class Session:
@@ -455,10 +513,20 @@ class Session:
                 new.append(v)
         n_obl = sum(o.obligations for o in self.obls)
         n_dis = sum(o.discharged for o in self.obls)
-        samples = []
+        full = []
         for o in self.obls:
-            samples.append(dict(obligation=o.name, desc=o.desc, bounds=o.bounds, status=o.status, paths=o.paths,
-                                queries=o.queries, solver_s=o.solver_s, witnesses=o.witnesses, samples=o.samples[:3]))
+            full.append(dict(obligation=o.name, desc=o.desc, bounds=o.bounds, status=o.status, paths=o.paths,
+                             queries=o.queries, solver_s=o.solver_s, witnesses=o.witnesses, samples=o.samples[:3]))
+        samples, families, listing = _bounded_samples(full)
+        # the complete per-obligation listing of this run (not committed; the evidence file holds a bounded selection of it)
+        try:
+            fulldir = os.path.join(CACHE, 'evidence-full' + RTAG)
+            os.makedirs(fulldir, exist_ok=True)
+            with gzip.open(os.path.join(fulldir, '%s.%s.jsonl.gz' % (self.prop, self.tier)), 'wt') as fh:
+                for r in full:
+                    fh.write(json.dumps(r, default=str) + '\n')
+        except OSError:
+            pass
         ev = dict(
             property_id=self.prop, tier=self.tier, seed=self.seed, level=level,
             coverage=dict(
@@ -476,14 +544,27 @@ class Session:
                 native_driver_calls=self._driver.calls if self._driver else 0,
                 tree_hash=self.tree,
                 samples=samples,
-                inconclusive=self.inconclusive,
+                samples_listing=listing,
+                obligation_families=families,
+                inconclusive=self.inconclusive[:200],
                 known_findings_matched=[v['key'] for v in self.violations if v['key'] in known_keys],
             ),
             assumptions=self.assumptions,
             wall_s=round(time.time() - self.t0, 2),
             violations=len(new),
         )
-        json.dump(ev, open(os.path.join(evdir, '%s.json' % self.prop), 'w'), indent=1, default=str)
+        text = json.dumps(ev, indent=1, default=str)
+        if len(text) > EVIDENCE_MAX_BYTES:          # cannot happen with the sample budget unless another key grows: keep the record readable
+            ev['coverage']['samples'] = samples[:50]
+            ev['coverage']['functions_encoded'] = ev['coverage']['functions_encoded'][:400]
+            text = json.dumps(ev, indent=1, default=str)
+        json.loads(text)                            # the record written is a valid json document
+        evpath = os.path.join(evdir, '%s.json' % self.prop)
+        with open(evpath + '.tmp', 'w') as fh:
+            fh.write(text)
+            fh.flush()
+            os.fsync(fh.fileno())
+        os.replace(evpath + '.tmp', evpath)
         if self._driver:
             self._driver.close()
         if new:
